@@ -558,6 +558,10 @@ func runRoundTrip(r *mon.Run, idx int, sp *segPair, live *[]uint64) {
 		r.Class("shipped-via-maybe-write")
 	}
 
+	if !top && !nestedDict && schema.NumFields() > 0 && rng.IntN(2) == 0 {
+		runTwins(r, idx, sp, rng, schema)
+	}
+
 	r.Class("class:" + class)
 	r.Class(tag)
 	if sliced {
@@ -583,6 +587,92 @@ func runRoundTrip(r *mon.Run, idx int, sp *segPair, live *[]uint64) {
 	if idx < 4 {
 		r.Sample(map[string]any{"arm": "round-trip", "schema": schema.String(), "rows": orig.NumRows(), "meta_keys": keys, "offset": off, "length": ln})
 	}
+}
+
+
+// runTwins writes, into the SAME segment, batches under "twin" schemas:
+// identical column names/types/nullability, differing only in schema-level
+// metadata, field-level metadata, or the naming/nullability of a list child
+// field. "Reads back equal in schema" must hold for each of them, in the
+// order written: whatever the segment remembers about the first twin must not
+// leak into the second. (Dictionary-free schemas only: those are stored as
+// self-contained streams carrying their own schema message.)
+func runTwins(r *mon.Run, idx int, sp *segPair, rng *rand.Rand, base *arrow.Schema) {
+	fields := append([]arrow.Field(nil), base.Fields()...)
+	mk := func(kind string, variant int) *arrow.Schema {
+		fs := append([]arrow.Field(nil), fields...)
+		var md *arrow.Metadata
+		switch kind {
+		case "schema-metadata":
+			m := arrow.NewMetadata([]string{"unit", "table_version"}, []string{[]string{"celsius", "kelvin"}[variant], fmt.Sprint(variant + 1)})
+			md = &m
+		case "field-metadata":
+			fs[0].Metadata = arrow.NewMetadata([]string{"semantic"}, []string{[]string{"id", "label"}[variant]})
+		case "list-child-name":
+			fs = append(fs, arrow.Field{Name: "twin_list", Nullable: true,
+				Type: arrow.ListOfField(arrow.Field{Name: []string{"item", "element"}[variant], Type: arrow.PrimitiveTypes.Int32, Nullable: true})})
+		case "list-child-nullability":
+			fs = append(fs, arrow.Field{Name: "twin_list", Nullable: true,
+				Type: arrow.ListOfField(arrow.Field{Name: "item", Type: arrow.PrimitiveTypes.Int32, Nullable: variant == 0})})
+		}
+		return arrow.NewSchema(fs, md)
+	}
+	kinds := []string{"schema-metadata", "field-metadata", "list-child-name", "list-child-nullability"}
+	kind := kinds[rng.IntN(len(kinds))]
+	order := []int{0, 1}
+	if rng.IntN(2) == 0 {
+		order = []int{1, 0}
+	}
+	for step, variant := range order {
+		sc := mk(kind, variant)
+		rec := gen.Batch(rng, sc, gen.BatchOpt{Rows: 1 + rng.IntN(4), FixedRows: true})
+		want := gen.SchemaStrict(sc)
+		wantValues := gen.CanonValues(rec)
+		off, ln, ok, err := sp.writer.AllocateAndWrite(rec)
+		rec.Release()
+		if err != nil || !ok {
+			r.Class("twin:write-refused")
+			return
+		}
+		hp := pointerBatch(sc, []string{vgirpc.MetaShmOffset, vgirpc.MetaShmLength}, []string{strconv.FormatUint(off, 10), strconv.Itoa(ln)})
+		wire, werr := viaIPC(hp)
+		hp.Release()
+		if werr != nil {
+			r.Fatal("twin pointer batch through IPC: %v", werr)
+		}
+		wit := map[string]any{"case": idx, "kind": kind, "step": step, "variant": variant, "order": order, "schema_written": want, "offset": off, "length": ln}
+		got, rerr := sp.reader.ReadBatch(off, ln, wire.Schema())
+		if rerr != nil {
+			r.Violation("read:error:twin:"+kind, fmt.Sprintf("ReadBatch failed on a twin-schema slot: %v", rerr), wit)
+		} else {
+			gs, gv := gen.SchemaStrict(got.Schema()), gen.CanonValues(got)
+			got.Release()
+			if gs != want {
+				wit["schema_read"] = gs
+				r.Violation(fmt.Sprintf("read:schema-differs:twin:%s:written-%s", kind, []string{"first", "second"}[step]),
+					"a batch written under a schema that differs from an earlier one in this segment only in "+kind+" read back with another schema", wit)
+			} else if gv != wantValues {
+				r.Violation("read:differs:twin:"+kind, "twin-schema batch read back with other values", wit)
+			}
+		}
+		res, _, _, err := vgirpc.ResolveShmBatch(wire, sp.reader)
+		if err != nil {
+			r.Violation("resolve:error:twin:"+kind, fmt.Sprintf("ResolveShmBatch failed on a twin-schema pointer: %v", err), wit)
+		} else {
+			gs := gen.SchemaStrict(res.Schema())
+			res.Release()
+			if gs != want {
+				wit["schema_resolved"] = gs
+				r.Violation(fmt.Sprintf("resolve:schema-differs:twin:%s:written-%s", kind, []string{"first", "second"}[step]),
+					"a pointer to a batch written under a twin schema resolved to a batch with another schema", wit)
+			}
+		}
+		wire.Release()
+		_ = sp.reader.FreeOffset(off)
+		sp.second.FillRange(int(off), ln)
+		r.Case(fmt.Sprintf("twin|%s|%d|%d|%s", kind, step, variant, gen.SchemaFingerprint(base)))
+	}
+	r.Class("twin:" + kind)
 }
 
 // ---------------------------------------------------------------------------
@@ -1053,7 +1143,7 @@ func main() {
 	r.Assume("a pointer whose region lies inside the allocator header is expected to be refused (header bytes are not an IPC stream)")
 	r.Assume("direct ReadBatch(offset,length) with the hostile numbers is recorded as an observation only: the statement speaks about pointers (ResolveShmBatch)")
 	req := []string{"no-dict", "dict-top", "dict-nested", "dict-top+nested", "class:zero-cols", "class:nested", "sliced-arrays", "nested-columns",
-		"rows=0", "rows>500", "with-metadata", "metadata-collides-with-pointer-keys", "shipped-via-maybe-write", "empty-batch-not-shipped", "write-refused-no-fit"}
+		"rows=0", "rows>500", "with-metadata", "twin:schema-metadata", "twin:field-metadata", "twin:list-child-name", "twin:list-child-nullability", "metadata-collides-with-pointer-keys", "shipped-via-maybe-write", "empty-batch-not-shipped", "write-refused-no-fit"}
 	for _, g := range []string{"malformed", "negative-length", "negative-offset", "overflow", "out-of-segment", "length-zero", "inside-header", "lenient-spelling", "unallocated-region", "top-level-dictionary-schema"} {
 		req = append(req, "hostile:"+g)
 	}
